@@ -22,6 +22,7 @@ RULE = (
     "distinct case JSON"
 )
 RULE += " " + "Round 6: part 'charts-over-64KiB' - SM and SSC charts whose note data is 65528..131081 characters long, with or without an escaped backslash / colon / comment opener / semicolon in a header field or in the note data."
+RULE += " " + 'Round 7: alias keys next to their standard keys (BGCHANGES + ANIMATIONS, STOPS + FREEZES) in the documents.'
 ASSUMPTIONS = ["msdparser.parse_msd is the trusted tokenizer", "values inside msdparser's escaping gap are outside the domain"]
 
 
